@@ -182,8 +182,11 @@ class Ctx:
 _pool = None
 
 
-class Hang(Exception):
-    """raised inside a worker when one step exceeds its time limit"""
+class Hang(BaseException):
+    """raised inside a worker when one step exceeds its time limit.  Derives
+    from BaseException so that no `except Exception` on the way up (in the
+    library or in a harness) can swallow it and leave a loop running with the
+    one-shot timer already spent."""
 
 
 class time_limit:
@@ -213,6 +216,14 @@ class time_limit:
 
 
 def _worker_init():
+    # kill -USR1 <worker pid> prints that worker's Python stack (debugging aid)
+    try:
+        import faulthandler
+        import signal
+
+        faulthandler.register(signal.SIGUSR1, all_threads=False)
+    except Exception:  # noqa
+        pass
     # address-space cap per worker: an unbounded allocation in the library
     # becomes a MemoryError (reported as a violation by the check) instead of
     # taking the machine down
